@@ -29,7 +29,7 @@ ASSUMPTIONS = ["clock steps >= 3 ms so millisecond truncation cannot confuse two
                "the context delta of a node that raised is not checked (the statement speaks of before/after the node)",
                "distinct content must yield distinct digests (sha256 collisions ignored)"]
 REQUIRED_PROBES = ["default_overridden_by_context", "probe_key_consumed_downstream", "local_date_ne_utc_date",
-                   "stall_between_start_and_end", "default_channel", "context_channel", "node_channel", "remote_executor"]
+                   "stall_between_start_and_end", "default_channel", "context_channel", "node_channel", "remote_executor", "node_wrote_context_then_raised"]
 CONFIG = {
     "quick": {"runs": 2000, "budget_s": 240, "timeout_s": 120},
     "thorough": {"runs": 60000, "budget_s": 1500, "timeout_s": 120},
@@ -57,6 +57,7 @@ def execute(sc: dict, seed: int) -> dict:
     book: dict = {}
     digests = []
     fails = gen.applicable_failures(base)
+    wtf = [f for f in fails if f[0] == "write_then_fail"]
     unres = [f for f in fails if f[0] == "unresolvable"]
     leafx = [f for f in fails if f[0] == "leaf_exception"]
     base_ctx_items = list(base["context"].items())
@@ -81,6 +82,9 @@ def execute(sc: dict, seed: int) -> dict:
             if leafx and rng.random() < 0.4:
                 kind, k = rng.choice(leafx)
                 subs.append((kind, k, gen.apply_failure(base, kind, k)))
+            if wtf and rng.random() < 0.4:
+                kind, k = rng.choice(wtf)
+                subs.append((kind, k, gen.apply_failure(base, kind, k)))
             if rng.random() < 0.5:
                 k = rng.randrange(len(base["nodes"]))
                 subs.append(("stall", k, dict(base, faults=[{"site": "executor_pre", "kind": "stall", "node": k,
@@ -103,8 +107,10 @@ def execute(sc: dict, seed: int) -> dict:
                 if kind == "stall" and [f for f in w.faults_fired if f["kind"] == "stall" and f["run"] == w.cur_run]:
                     stats["fault.stall"] = stats.get("fault.stall", 0) + 1
                     stats["probe.stall_between_start_and_end"] = stats.get("probe.stall_between_start_and_end", 0) + 1
-                if kind in ("unresolvable", "leaf_exception"):
+                if kind in ("unresolvable", "leaf_exception", "write_then_fail"):
                     stats[f"fault.{kind}"] = stats.get(f"fault.{kind}", 0) + 1
+                if kind == "write_then_fail":
+                    stats["probe.node_wrote_context_then_raised"] = stats.get("probe.node_wrote_context_then_raised", 0) + 1
                 tr = truth if kind in ("none", "stall", "leaf_exception", "unresolvable") else None
                 vs = oracles.check_c07(rr, w, s, tr, kind, tz, book)
                 for v in vs:
